@@ -116,3 +116,12 @@ package treasure
 //@ type treasure
 //@   guarded_by mu: treasure, contentChanged, expirationTimeChanged, createdAtChanged, createdByChanged, deletedAtChanged, deletedByChanged, modifiedAtChanged, modifiedByChanged only C10
 //@ census treasure property C10
+
+// A clone owns its value: nothing reachable from the returned content is memory of the live record
+// (a snapshot handed to a reader or a subscriber cannot be rewritten by a later write to the record).
+//@ func (*treasure).cloneContent(t) (out)
+//@   property C10
+//@   modifies *
+//@   ensures[byte_array_is_a_private_copy] isnil(out.ByteArray) || fresh(out.ByteArray)
+//@   ensures[uint32_slice_is_a_private_copy] out.Uint32Slice == nil || (fresh(out.Uint32Slice) && (isnil(deref(out.Uint32Slice)) || fresh(deref(out.Uint32Slice))))
+//@   ensures[scalars_are_private_copies] (out.String == nil || fresh(out.String)) && (out.Uint8 == nil || fresh(out.Uint8)) && (out.Uint16 == nil || fresh(out.Uint16)) && (out.Uint32 == nil || fresh(out.Uint32)) && (out.Uint64 == nil || fresh(out.Uint64)) && (out.Int8 == nil || fresh(out.Int8)) && (out.Int16 == nil || fresh(out.Int16)) && (out.Int32 == nil || fresh(out.Int32)) && (out.Int64 == nil || fresh(out.Int64)) && (out.Float32 == nil || fresh(out.Float32)) && (out.Float64 == nil || fresh(out.Float64)) && (out.Boolean == nil || fresh(out.Boolean))
